@@ -93,6 +93,9 @@ func (c *Ctx) coreDominatesEvent(pred func(ssa.Instruction) bool, site ssa.Instr
 		if SetDominates(ev, pred, site) {
 			return true, "dominates the dispatch"
 		}
+		if SameGuardDominates(ev, pred, site) {
+			return true, "executes on every path to the dispatch (both are guarded by the same flag value)"
+		}
 		return false, "does not dominate the dispatch"
 	}
 	for _, cd := range CondsAt(site.Block()) {
@@ -334,30 +337,28 @@ func runC06(c *Ctx) {
 		L := loads[0]
 		n := 0
 		bad := ""
-		for _, b := range td.Blocks {
-			isFalsePath := false
-			for _, cd := range CondsAt(b) {
-				cd = unwrapNot(cd)
-				if cd.V == L.(ssa.Value) && !cd.True {
-					isFalsePath = true
+		// everything reachable from the test when the flag was false: the CFG without the edges that say it was true
+		// (the flag is one SSA value, so a later branch on it goes the same way)
+		skipTrue := func(from, to *ssa.BasicBlock) bool {
+			cd, ok := edgeCond(from, to)
+			if !ok {
+				return false
+			}
+			cd = unwrapNot(cd)
+			return cd.V == L.(ssa.Value) && cd.True
+		}
+		for in := range ReachFromFiltered(L, false, nil, skipTrue) {
+			n++
+			switch t := in.(type) {
+			case *ssa.Store:
+				if _, local := t.Addr.(*ssa.Alloc); !local {
+					bad = "store at " + c.InstrPos(in)
 				}
-			}
-			if !isFalsePath {
-				continue
-			}
-			for _, in := range b.Instrs {
-				n++
-				switch t := in.(type) {
-				case *ssa.Store:
-					if _, local := t.Addr.(*ssa.Alloc); !local {
-						bad = "store at " + c.InstrPos(in)
-					}
-				case *ssa.MapUpdate, *ssa.Send, *ssa.Go, *ssa.Defer:
-					bad = "side effect at " + c.InstrPos(in)
-				case *ssa.Call:
-					if op, ok := c.lockOpOf(t); !ok || (op.Method != "Unlock" && op.Method != "RUnlock") {
-						bad = "call of " + calleeName(&t.Call) + " at " + c.InstrPos(in)
-					}
+			case *ssa.MapUpdate, *ssa.Send, *ssa.Go, *ssa.Defer:
+				bad = "side effect at " + c.InstrPos(in)
+			case *ssa.Call:
+				if op, ok := c.lockOpOf(t); !ok || (op.Method != "Unlock" && op.Method != "RUnlock") {
+					bad = "call of " + calleeName(&t.Call) + " at " + c.InstrPos(in)
 				}
 			}
 		}
